@@ -167,6 +167,30 @@ func c13Case(side string, interval time.Duration, threshold int, pattern string)
 	synctest.Wait()
 	horizonReached = true
 
+	c13Judge(pattern, interval, threshold, horizon, obs, broke, func() error {
+		pctx, cancel := context.WithTimeout(ctx, interval)
+		defer cancel()
+		return sess.Ping(pctx, nil)
+	}, fail)
+	// shut down and check that nothing is left behind
+	sess.Close()
+	peerRWC.Close()
+	synctest.Wait() // no virtual time may be needed for keep-alive to end
+	if obs.closedAt < 0 {
+		fail("wait-never-returned", "pattern %q: Wait did not return after Close", pattern)
+	}
+	if n := runtime.NumGoroutine() - base; n > 0 {
+		buf := make([]byte, 1<<15)
+		buf = buf[:runtime.Stack(buf, true)]
+		fail("goroutine-left-behind", "pattern %q: %d goroutine(s) left after Close:\n%s", pattern, n, buf)
+	}
+	return obs, bad, sig
+}
+
+// c13Judge is the reference failure detector: given the fates of the pings (alphabet of
+// c13Symbols) it decides whether and when keep-alive must have closed the session and compares
+// that with what was observed.
+func c13Judge(pattern string, interval time.Duration, threshold int, horizon time.Duration, obs c13Obs, broke bool, ping func() error, fail func(s, format string, a ...any)) {
 	// ---- reference detector
 	th := max(threshold, 1)
 	expectClose := time.Duration(-1)
@@ -232,11 +256,9 @@ func c13Case(side string, interval time.Duration, threshold int, pattern string)
 				fail("pings-after-method-not-found", "pattern %q: keep-alive continued after method-not-found: %d pings, want %d", pattern, len(obs.pingTimes), expectPings)
 			}
 			// still usable
-			pctx, cancel := context.WithTimeout(ctx, interval)
-			if err := sess.Ping(pctx, nil); err != nil {
+			if err := ping(); err != nil {
 				fail("live-session-unusable", "pattern %q: session open at the horizon but a ping fails: %v", pattern, err)
 			}
-			cancel()
 		}
 	}
 	// pings are issued on the interval grid while keep-alive runs
@@ -246,19 +268,6 @@ func c13Case(side string, interval time.Duration, threshold int, pattern string)
 			break
 		}
 	}
-	// shut down and check that nothing is left behind
-	sess.Close()
-	peerRWC.Close()
-	synctest.Wait() // no virtual time may be needed for keep-alive to end
-	if obs.closedAt < 0 {
-		fail("wait-never-returned", "pattern %q: Wait did not return after Close", pattern)
-	}
-	if n := runtime.NumGoroutine() - base; n > 0 {
-		buf := make([]byte, 1<<15)
-		buf = buf[:runtime.Stack(buf, true)]
-		fail("goroutine-left-behind", "pattern %q: %d goroutine(s) left after Close:\n%s", pattern, n, buf)
-	}
-	return obs, bad, sig
 }
 
 func TestVerifC13(t *testing.T) {
